@@ -48,7 +48,7 @@ def corpus(tier, seed):
 
 def main(tier: str) -> int:
     seed = seed_from_env()
-    return run_property(PROP, tier, corpus(tier, seed),
+    return run_property(PROP, tier, corpus(tier, seed), scripted=True,
                         note="Corpus: models incl. a discretised likelihood (ties at almost every iteration) and a "
                              "prior with a hole; nlive 10..100; flow/augmented proposals; several latent priors and "
                              "reparameterisations; kill/resume histories.")
